@@ -96,6 +96,15 @@ CHECKS = {
          "status-time flag, plus agreement-only malformed / out-of-domain streams, debug and release builds.",
          "serde Vec/bool/u32 visitors and serde_cbor size_hint modelled, not verified; clock after 2000-01-01 and < 2^64 ms; reporting node's EID "
          "valid; fewer than 2^64-1 timestamps per millisecond; subject's source name < 2^64 bytes.", "DESIGN.md section 6 C12"),
+ "C13": ("Coq theorems C13_depends_only_on_ident (the textual bundle ID is a function of source endpoint ID, creation time, sequence number, "
+         "fragment-ness and fragment offset), C13_injective_outside_known / C13_iff_outside_known (equal IDs imply equal identity for all bundles "
+         "with API/decoder-image sources and u64 fields outside two decidable classes), C13_refuted (the full iff of the property text is false: "
+         "dtn://n/a-5 (1,2) vs fragment dtn://n/a (5,1) offset 2), C13_fragment_collides / C13_known_none_name_narrow (the classes are tight), "
+         "C13_refbundle (a status report about a non-fragment bundle prints the bundle's ID); K-id channel: adversarial re-splittings of one ID "
+         "text, single-field perturbations inside/outside the identity, random pairs, status-report references; failing pairs are classified by "
+         "the same decidable predicate (known findings id-dash-source, id-none-name).",
+         "Display for u64/EndpointID and format! are modelled; new_status_report on a fragment is unimplemented!() in the crate (not judged).",
+         "DESIGN.md section 6 C13"),
  "C14": ("Coq theorems C14_null_on_invalid / C14_null_on_empty / C14_from_cbor_outcomes (bundle_from_cbor on any buffer: NULL with the heap and the "
          "allocation count untouched when the bytes do not decode or do not validate, never an abort — uses C06_decode_total), C14_valid_gives_bundle, "
          "C14_agrees_with_rust_api, C14_roundtrip_through_ffi (for every well-formed bundle that validates: decoding its encoding through the interface "
